@@ -150,7 +150,7 @@ class piline(Problem):
                 if t_init is None:
                     raise ValueError('Please supply `t_init` when you want to get the exact solution from a point that \
 is not 0!')
-                me = u_init
+                me[:] = u_init
             else:
                 t_init = 0.0
 
